@@ -2,7 +2,7 @@ check('C06', 'proof',
       'Coq theorems T06_* about executable models of LegCharge (Model/Leg.v) and LegPipe (Model/Pipe.v), for any number of legs, blocks, '
       'block sizes (also 0), charges, mods, directions and sort/bunch settings: T06_flat_bijection (map_incoming_flat is a bijection between the '
       'incoming index tuples and [0, prod ind_len) with an explicit inverse; it does not depend on bunching), T06_fusion_rule (the outgoing block that '
-      'q_map assigns to a tuple carries make_valid(qconj*sum qconj_l*charge_l)), T06_pipe_sorted, T06_get_qindex(+_inverse) (inverse of the slices on '
+      'q_map assigns to a tuple carries make_valid(qconj*sum qconj_l*charge_l)), T06_qmap_shape (every q_map row: slice size = size of the block tuple, slice inside the outgoing block I_s), T06_pipe_sorted, T06_get_qindex(+_inverse) (inverse of the slices on '
       '[-ind_len, ind_len), error outside), T06_bunch / T06_project (qflat of the surviving indices unchanged), T06_flip_charges_qconj / '
       'T06_conj_contractible (test_equal / test_contractible), T06_sort_partial (block permutation, sortedness; the flat-index form is not proved). '
       'The models are executed (vm_compute) against the implementation on an enumeration of all pipes over small legs (U(1), Z_2, Z_3, two charges, '
@@ -10,7 +10,7 @@ check('C06', 'proof',
       'charges, slices, q_map, q_map_slices and map_incoming_flat on EVERY index tuple, in the python and the compiled configuration; likewise '
       'sort/bunch/project/extend/flip/get_qindex/perm_flat_from_perm_qind on enumerated and random legs. Oracle-only (not proved): that combine_legs/'
       'split_legs place tensor entries where map_incoming_flat says and round-trip exactly (dense reshape/transpose oracle incl. nested pipes, given '
-      'pipes, new_axes, labels), sort_legcharge, as_completely_blocked, the layout clauses of q_map (rows sorted by I_s, slices tile each block).',
+      'pipes, new_axes, labels), sort_legcharge, as_completely_blocked, the remaining layout clauses of q_map (rows lexsorted by (I_s, i), q_map_slices, gap-free tiling).',
       'Trusted: Coq kernel+VM, harness generators/oracles; charges are unbounded integers (no int64 overflow), cached flags sorted/bunched checked by '
       'test_sanity at TENPY_OPTIMIZE=0 only; _perm/_strides are private and only exercised through map_incoming_flat. Known findings F06.1-F06.6 '
       '(outer_conj, get_qindex(ind_len), get_leg_index(rank), ?# labels of untouched legs, sort_legcharge(False, False)).',
